@@ -1,9 +1,11 @@
 package props
 
 import (
+	"encoding/hex"
 	"encoding/json"
 	"fmt"
 	"regexp"
+	"strconv"
 	"strings"
 
 	"github.com/ipld/go-ipld-prime"
@@ -36,8 +38,13 @@ func c14Normalise(s string) string {
 }
 
 type c14SelCase struct {
-	S string `json:"s"`
+	S   string `json:"s"`
+	Hex string `json:"hex,omitempty"` // the text in hex, for texts that are not valid UTF-8 (S is then only descriptive)
 }
+
+// c14ByteNames: quoted field names made of bytes outside ASCII - not UTF-8, ending inside a character, the
+// replacement character itself, composed and decomposed spellings of one glyph.
+var c14ByteNames = []string{"k\xff", "\xff", "\xfe\xff", "\xc3", "k\xc3\xa9", "k\xef\xbf\xbd", "e\xcc\x81", "\xc3\xa9", "\xed\xa0\x80", "\xf0\x9f\x98\x80", "\xf0\x9f\x98", "\xc0\xaf"}
 
 func (c *c14SelCase) Weight() int { return len(c.S) }
 
@@ -83,7 +90,7 @@ func c14SelectorSub() *engine.Sub {
 	return &engine.Sub{
 		Name:   "selector-text",
 		Repeat: true,
-		Rule:   `every string over {. [ ] " ? : - 0 1 a _ \ * space} up to the length bound offered to selector.Parse; for every accepted string: printing reproduces the text (up to '?' after an identity dot), the printed text parses to the same segments with identical Select results on 33 values, and every segment re-parsed alone has the same meaning; non-trivial = accepted strings`,
+		Rule:   `every string over {. [ ] " ? : - 0 1 a _ \ * space} up to the length bound offered to selector.Parse, plus 12 quoted field names made of bytes outside ASCII (not UTF-8, ending inside a character, U+FFFD, composed / decomposed spellings) in 6 selector shapes; for every accepted string: printing reproduces the text (up to '?' after an identity dot), the printed text parses to the same segments with identical Select results on 33 values, and every segment re-parsed alone has the same meaning; non-trivial = accepted strings`,
 		Bound: func(t string) string {
 			return fmt.Sprintf("all strings of length <=%d over 14 symbols", tierN(t, 5, 8))
 		},
@@ -99,10 +106,25 @@ func c14SelectorSub() *engine.Sub {
 				}
 				return emit(&c14SelCase{S: "." + s})
 			})
+			for _, name := range c14ByteNames {
+				for _, form := range []string{`.["%s"]`, `.a["%s"]`, `.["%s"]?`, `.["%s"][0]`, `.["%s"]["%s"]`, `.["a"]["%s"]?[1:]`} {
+					t := strings.ReplaceAll(form, "%s", name)
+					if !emit(&c14SelCase{S: strconv.QuoteToASCII(t), Hex: hex.EncodeToString([]byte(t))}) {
+						return
+					}
+				}
+			}
 		},
 		NewCase: func() any { return &c14SelCase{} },
 		Run: func(ctx *engine.Ctx, c any) {
 			cs := c.(*c14SelCase)
+			if cs.Hex != "" {
+				b, err := hex.DecodeString(cs.Hex)
+				if err != nil {
+					panic(err)
+				}
+				cs = &c14SelCase{S: string(b), Hex: cs.Hex}
+			}
 			ctx.Eval(1)
 			ctx.States(1)
 			ctx.Trans(1)
@@ -196,6 +218,9 @@ func c14Args(depth int) []string {
 
 var c14Ops = []string{"==", "<", "<=", ">", ">=", "not", "and", "or", "like", "all", "any", "nope"}
 
+// c14OtherOps: operator names a policy reader must not take for one of the eleven.
+var c14OtherOps = []string{"every", "some", "none", "eq", "neq", "ne", "!=", "=", "===", "gt", "gte", "lt", "lte", "≥", "≤", "AND", "OR", "NOT", "And", "Or", "Not", "All", "Any", "ALL", "ANY", "Like", "LIKE", "glob", "match", "in", "&&", "||", "!", " ==", "== ", "all ", " any", "", "not\u0000", "＝＝"}
+
 var c14StmtMemo = map[int][]string{}
 
 // c14Statements enumerates statement-shaped JSON: every operator x arity 1..4 x argument kinds.
@@ -245,7 +270,7 @@ func c14PolicySub() *engine.Sub {
 	return &engine.Sub{
 		Name:   "policy-ipld-roundtrip",
 		Repeat: true,
-		Rule:   "policies = lists of <=2 statements built from every operator (11 + one unknown) x arity 1..4 x argument kinds (selector-like/pattern-like strings, int, null, map, list, nested statements), offered as DAG-JSON text to policy.FromDagJson and as a node to policy.FromIPLD; rejected, or ToIPLD(FromIPLD(n)) deep-equals n up to selector normalisation and String() does not fail; non-trivial = accepted",
+		Rule:   "policies = lists of <=2 statements built from every operator (11 + one unknown) x arity 1..4 x argument kinds (selector-like/pattern-like strings, int, null, map, list, nested statements), plus 40 other operator names (aliases from other policy languages and drafts, other letter cases, blanks) in 8 well-formed statement shapes, offered as DAG-JSON text to policy.FromDagJson and as a node to policy.FromIPLD; rejected, or ToIPLD(FromIPLD(n)) deep-equals n up to selector normalisation and String() does not fail; non-trivial = accepted",
 		Bound: func(t string) string {
 			return fmt.Sprintf("statement nesting depth <=%d, policies of 0..2 statements", tierN(t, 1, 2))
 		},
@@ -267,6 +292,18 @@ func c14PolicySub() *engine.Sub {
 						return
 					}
 					if !emit(&c14PolCase{JSON: `[` + p + `,` + s + `]`}) {
+						return
+					}
+				}
+			}
+			// operator names that are NOT the eleven operators - names from other policy languages and earlier
+			// drafts, other letter cases, surrounding blanks - in every well-formed statement shape: they are
+			// rejected, or whatever is accepted is written back under the name it was read with
+			for _, op := range c14OtherOps {
+				qb, _ := json.Marshal(op)
+				q := string(qb)
+				for _, shape := range []string{`[%s,".a",1]`, `[%s,".a","a*"]`, `[%s,["==",".a",1]]`, `[%s,[["==",".a",1],["==",".b",2]]]`, `[%s,".l",["==",".",1]]`, `["not",[%s,".l",["==",".",1]]]`, `["and",[[%s,".a",1]]]`, `["any",".l",[%s,".",1]]`} {
+					if !emit(&c14PolCase{JSON: "[" + fmt.Sprintf(shape, q) + "]"}) {
 						return
 					}
 				}
